@@ -416,6 +416,16 @@ type c13Holder struct {
 	_unknownFields []byte
 }
 
+type c13Outer struct {
+	X int64
+	c13Holder
+}
+
+type c13Outer2 struct {
+	Name string
+	c13Holder
+}
+
 func c13Get(b []byte) (out V) {
 	defer func() {
 		if r := recover(); r != nil {
@@ -424,8 +434,13 @@ func c13Get(b []byte) (out V) {
 	}()
 	h := &c13Holder{A: 1, _unknownFields: b}
 	var arg interface{} = h
-	if len(b)%2 == 1 {
+	switch len(b) % 4 {
+	case 1:
 		arg = *h // by value as well as by pointer
+	case 2: // the field is PROMOTED from an embedded struct that does not sit at offset 0
+		arg = &c13Outer{X: 0, c13Holder: *h}
+	case 3:
+		arg = &c13Outer2{Name: "a leading string member", c13Holder: *h}
 	}
 	fs, err := unknownfields.GetUnknownFields(arg)
 	if err != nil {
